@@ -41,6 +41,11 @@ def programs(draw):
     types = {}
     excluded_known = 0
     used = draw(st.lists(st.integers(0, 99), min_size=ntypes, max_size=ntypes, unique=True))
+    if ntypes >= 2 and draw(st.integers(0, 3)) == 0:
+        # type numbers that differ by 32 or 64 (3/35, 31/95, 0/64)
+        b0 = draw(st.integers(0, 35))
+        used = [b0, b0 + draw(st.sampled_from([32, 64]))] + [x for x in used[2:] if x not in (b0, b0 + 32, b0 + 64)]
+        ntypes = len(used)
     for mt in used:
         kind = draw(st.sampled_from(["single", "stack"]))
         labs = {}
@@ -74,9 +79,15 @@ def programs(draw):
     # system + walk
     streams = []
     ncpus = draw(st.integers(1, 3))
+    # the second process may live in another loom (node), where the same thread ids are in use
+    two_looms = split < nth and draw(st.booleans())
+    looms = ["node.7" if (pids[t] == 9 or not two_looms) else "node.8" for t in range(nth)]
+    if two_looms and nth - split <= split:
+        for i in range(nth - split):
+            tids[split + i] = tids[i]
     for t in range(nth):
-        s = {"loom": "node.7", "pid": pids[t], "tid": tids[t], "app": 3 if pids[t] == 9 else 4, "require": {"ovni": "1.1.0"}, "events": []}
-        if t == 0:
+        s = {"loom": looms[t], "pid": pids[t], "tid": tids[t], "app": 3 if pids[t] == 9 else 4, "require": {"ovni": "1.1.0"}, "events": []}
+        if t == 0 or (two_looms and t == split):
             s["cpus"] = [[i, i] for i in range(ncpus)]
         streams.append(s)
     marks_meta = {str(mt): {"title": ty["title"], "chan_type": ty["kind"], "labels": {str(v): l for v, l in ty["labels"].items()}}
@@ -142,7 +153,8 @@ def programs(draw):
         if stop:
             break
         for t in members:
-            cpu = t if t < ncpus else -1
+            k = t - split if (two_looms and t >= split) else t
+            cpu = k if k < ncpus else -1
             if w.legal(ths[t], "OHx", T.P("iiQ", cpu, -1, 0)):
                 ops.append((t, ["ev", "OHx", T.P("iiQ", cpu, -1, 0)]))
         lo, hi = (0, n) if len(phases) == 1 else ((0, n // 2) if pi == 0 else (n // 2, n))
@@ -210,7 +222,7 @@ def programs(draw):
         bad = None
     close(list(range(nth)))
     shared = sum(1 for mt in types if sum(1 for d in decl if mt in d) >= 2)
-    return {"nth": nth, "tids": tids, "pids": pids, "ncpus": ncpus, "types": {str(k): v for k, v in types.items()},
+    return {"nth": nth, "tids": tids, "pids": pids, "looms": looms, "ncpus": ncpus, "types": {str(k): v for k, v in types.items()},
             "decl": [{str(k): v for k, v in d.items()} for d in decl], "ops": [[t] + o for t, o in ops],
             "bad": bad, "nt": bool(shared or hidden), "_excluded_known": excluded_known}
 
@@ -231,12 +243,13 @@ def to_scripts(case):
     pids = case.get("pids") or [9] * case["nth"]
     for pid in sorted(set(pids)):
         members = [t for t in range(case["nth"]) if pids[t] == pid]
-        lines = ["MODE turn", "P init %d %s %d" % (3 if pid == 9 else 4, rt.hx("node.7"), pid)]
+        looms = case.get("looms") or ["node.7"] * case["nth"]
+        lines = ["MODE turn", "P init %d %s %d" % (3 if pid == 9 else 4, rt.hx(looms[members[0]]), pid)]
         for t in members:
             lines.append("T%d init %d" % (t, case["tids"][t]))
-        if 0 in members:
+        if 0 in members or looms[members[0]] != looms[0]:
             for i in range(case["ncpus"]):
-                lines.append("T0 cpu %d %d" % (i, i))
+                lines.append("T%d cpu %d %d" % (members[0], i, i))
         for o in case["ops"]:
             t, op = o[0], o[1:]
             if t not in members:
@@ -261,6 +274,7 @@ def run(case, ctx):
     ctx.stats.excluded_known += case.get("_excluded_known", 0)
     scripts = to_scripts(case)
     pids = case.get("pids") or [9] * case["nth"]
+    looms = case.get("looms") or ["node.7"] * case["nth"]
     d = ctx.newdir()
     try:
         tracedir = os.path.join(d, "trace")
@@ -287,7 +301,7 @@ def run(case, ctx):
         streams = []
         for t in range(case["nth"]):
             lines, rr = runs[t]
-            sd = os.path.join(tracedir, "loom.node.7", "proc.%d" % pids[t], "thread.%d" % case["tids"][t])
+            sd = os.path.join(tracedir, "loom.%s" % looms[t], "proc.%d" % pids[t], "thread.%d" % case["tids"][t])
             data = open(os.path.join(sd, "stream.obs"), "rb").read()
             evs, probs = obs.validate_stream(data)
             if probs:
@@ -306,7 +320,7 @@ def run(case, ctx):
                 want[mt] = e
             if got != want:
                 raise Violation("thread %d metadata marks %s != declared %s" % (t, got, want))
-            streams.append({"loom": "node.7", "pid": pids[t], "tid": case["tids"][t], "raw_json": json.dumps(meta),
+            streams.append({"loom": looms[t], "pid": pids[t], "tid": case["tids"][t], "raw_json": json.dumps(meta),
                             "events": [[e.mcv, e.clock, e.payload.hex(), int(e.jumbo)] for e in evs]})
         if not er.ok:
             raise Violation("ovniemu -l rejects the trace of a correct mark program: %s" % er.brief())
@@ -327,7 +341,7 @@ def run(case, ctx):
                 want = {int(v): l for v, l in ty["labels"].items()}
                 if pcf.types[typ][1] != want:
                     raise Violation("%s.pcf type %d labels %s != union of declared labels %s" % (name, typ, pcf.types[typ][1], want))
-        return {"nt": case["nt"], "cls": ["ok-program", "threads:%d" % case["nth"], "processes:%d" % len(scripts)],
+        return {"nt": case["nt"], "cls": ["ok-program", "threads:%d" % case["nth"], "processes:%d" % len(scripts)] + (["two-looms"] if len(set(looms)) > 1 else []),
                 "sample": {"script": scripts[0][2][:30], "processes": len(scripts)}}
     finally:
         ctx.rmdir(d)
